@@ -191,13 +191,17 @@ static std::string iterate(const rtosc_arg_val_t *av, size_t n) {
     rtosc_arg_val_itr_init(&itr, av);
     std::string out;
     bool first = true;
+    size_t steps = 0;
     while (itr.i < n) {
+        if (++steps > 10000 || out.size() > (1u << 20)) { out += ",+"; break; }   // runaway guard
         rtosc_arg_val_t buffer;
         memset(&buffer, 0, sizeof buffer);
         const rtosc_arg_val_t *cur = rtosc_arg_val_itr_get(&itr, &buffer);
         if (!first) out += ",";
         first = false;
-        if (cur->type == 'a') {
+        if (cur->type == 'a' && cur == &buffer) {
+            out += "a[!copy]";   // an array header copied out of its array: elements unreachable
+        } else if (cur->type == 'a') {
             char buf[16];
             snprintf(buf, sizeof buf, "a%02x[", (unsigned char)rtosc_av_arr_type(cur));
             out += buf;
@@ -220,6 +224,7 @@ static std::string message(const AvList &L) {
     if (L.has_inf) return "inf";
     if (L.has_null) return "null";
     size_t need = rtosc_avmessage(NULL, 0, "/p", L.n, L.av);
+    if (need > (1u << 20)) return "toolong";
     bytes fill(need, 0xaa);
     Exact buf(fill);    // exactly the size the library asked for
     size_t len = rtosc_avmessage(buf.c(), need, "/p", L.n, L.av);
@@ -253,4 +258,68 @@ static std::string step(const std::string &line) {
     return o.str();
 }
 
-int main(int argc, char **argv) { return run_lines(argc, argv, step); }
+// The op lines are processed in a forked worker; when the worker dies on a line (sanitizer abort,
+// signal, exit(1) inside the library) that line's output becomes `crash:<kind>` and a new worker
+// continues with the next line, so a defect that crashes on many inputs still yields one output
+// line per op line.
+#include <unistd.h>
+#include <sys/wait.h>
+int main(int argc, char **argv) {
+    if (argc < 2) { fprintf(stderr, "usage: %s <ops-file>\n", argv[0]); return 2; }
+    std::vector<std::string> ops;
+    {
+        std::ifstream in(argv[1]);
+        std::string line;
+        while (std::getline(in, line))
+            if (!line.empty() && line[0] != '#') ops.push_back(line);
+    }
+    size_t next = 0;
+    while (next < ops.size()) {
+        int fd[2];
+        if (pipe(fd) != 0) return 3;
+        fflush(stdout);
+        pid_t pid = fork();
+        if (pid < 0) return 3;
+        if (pid == 0) {
+            close(fd[0]);
+            alarm(60);   // a hanging library call ends as crash:signal:14
+            FILE *o = fdopen(fd[1], "w");
+            for (size_t i = next; i < ops.size(); ++i) {
+                std::string out = step(ops[i]);
+                alarm(60);
+                fputs(out.c_str(), o);
+                fputc('\n', o);
+                fflush(o);
+            }
+            fclose(o);
+            _exit(0);
+        }
+        close(fd[1]);
+        FILE *in = fdopen(fd[0], "r");
+        std::string cur;
+        int ch;
+        while ((ch = fgetc(in)) != EOF) {
+            if (ch == '\n') {
+                fputs(cur.c_str(), stdout);
+                fputc('\n', stdout);
+                cur.clear();
+                ++next;
+            } else
+                cur.push_back((char)ch);
+        }
+        fclose(in);
+        int status = 0;
+        waitpid(pid, &status, 0);
+        if (next < ops.size()) {   // the worker died on line `next`
+            char kind[64];
+            if (WIFSIGNALED(status)) snprintf(kind, sizeof kind, "crash:signal:%d", WTERMSIG(status));
+            else if (WEXITSTATUS(status) == 99) snprintf(kind, sizeof kind, "crash:asan");
+            else if (WEXITSTATUS(status) == 98) snprintf(kind, sizeof kind, "crash:ubsan");
+            else snprintf(kind, sizeof kind, "crash:exit:%d", WEXITSTATUS(status));
+            puts(kind);
+            ++next;
+        }
+    }
+    fflush(stdout);
+    return 0;
+}
